@@ -30,6 +30,10 @@ func loadAuthorizationRequest(data []byte, version int) (*AuthorizationRequestCl
 	if ac.Type != AuthorizationRequestClaim {
 		return nil, errors.New("not an authorization request claim")
 	}
+	// ... and the version they report must be the one that selects the signed text
+	if ac.Version != version {
+		return nil, errors.New("authorization request claim version mismatch")
+	}
 	return &ac, nil
 }
 
@@ -40,6 +44,9 @@ func loadAuthorizationResponse(data []byte, version int) (*AuthorizationResponse
 	}
 	if ac.Type != AuthorizationResponseClaim {
 		return nil, errors.New("not an authorization response claim")
+	}
+	if ac.Version != version {
+		return nil, errors.New("authorization response claim version mismatch")
 	}
 	return &ac, nil
 }
